@@ -196,6 +196,10 @@ def m_into(ex, callee, args, ret_ty, frame):
     if not m:
         return NOT_HANDLED
     a, tr, b = m.group(1), m.group(2), m.group(3)
+    if a.startswith("impl ") and getattr(args[0], "ty", None):
+        # `val: impl Into<T>`: the conversion is the one of the value's own type
+        a = norm_ty(args[0].ty)
+        callee = f"<{a} as {tr}<{b}>>::{m.group(4)}"
     if tr in ("Into", "TryInto"):
         # rscel's own impl first (resolved by the caller when inlined); otherwise the blanket impl
         if ex.P.resolve(callee) is not None:
